@@ -50,11 +50,17 @@ class BalWorld(object):
     self.steady = None
     self.cid = 100000
     self.counted = set()
+    self.reported_nodes = set()
+    self.late_dispatched = set()
+    self.total_reported = False
 
   # -- stub provider callbacks ---------------------------------------------
   def conn_spec(self, key, ordinal, total):
-    return {'open_delay': self.cfg.get('open_delay', 0), 'open_sync': self.cfg.get('open_sync', True),
+    spec = {'open_delay': self.cfg.get('open_delay', 0), 'open_sync': self.cfg.get('open_sync', True),
             'reopen': True}
+    if self.cfg.get('close_yield') is not None:
+      spec['close_yield'] = self.cfg['close_yield']      # Close() takes a moment (yields to the hub)
+    return spec
 
   def on_create(self, sink):
     pass
@@ -70,7 +76,7 @@ class BalWorld(object):
   def outstanding(self, sink, exclude=None):
     n = getattr(sink, 'sim_out', 0)
     if exclude is not None and exclude.sink is sink and exclude in self.counted \
-        and not self.caller_done(exclude.call_id):
+        and (not self.caller_done(exclude.call_id) or exclude in self.late_dispatched):
       n -= 1
     return n
 
@@ -78,13 +84,25 @@ class BalWorld(object):
     r.sink.sim_out = getattr(r.sink, 'sim_out', 0) + 1
     self.counted.add(r)
     c = self.tracker.calls.get(r.call_id)
-    if c is not None:
+    if c is not None and not c.completions:
       c.extra.setdefault('sinks', []).append(r.sink)
+    else:
+      # dispatched after its caller had already completed (e.g. timed out while
+      # the dispatch was queued behind the heap lock): the balancer carries it
+      # until the channel's response has passed back through it
+      self.late_dispatched.add(r)
+
+  def on_response_delivered(self, r):
+    if r in self.late_dispatched:
+      self.late_dispatched.discard(r)
+      r.sink.sim_out -= 1
 
   def _count_out(self, c):
     for s in c.extra.get('sinks', ()):
       s.sim_out -= 1
     c.extra['sinks'] = []
+    if self.steady is not None and c.extra.get('steady'):
+      self.steady_refill()
 
   def heap_nodes(self):
     return list(self.lb._heap[1:])
@@ -93,8 +111,7 @@ class BalWorld(object):
     c = self.tracker.calls.get(r.call_id)
     if c is not None:
       c.arrivals.append((CLOCK.now, r.sink))
-    if c is None or not c.completions:
-      self._count_in(r)
+    self._count_in(r)
     self.check_choice(r)
     self.check_loads('dispatch')
     self.schedule_reply(r, c)
@@ -128,11 +145,14 @@ class BalWorld(object):
       r.sink.complete(r, value=('reply', r.call_id))
     else:
       r.sink.complete(r, error=StubError('boom'))
-    if self.steady is not None and c is not None and c.extra.get('steady'):
-      self.steady_refill()
 
   # -- C03 -------------------------------------------------------------------
   def check_choice(self, r):
+    if self.op_in_progress():
+      # releases of already-completed calls are still queued behind the heap
+      # lock: the balancer's view of the loads legitimately lags the model
+      REC.probe('choice_check_skipped_operation_in_progress')
+      return
     nodes = self.heap_nodes()
     chosen = None
     for n in nodes:
@@ -173,27 +193,47 @@ class BalWorld(object):
   # -- C04 -------------------------------------------------------------------
   def check_loads(self, where):
     idle, pen = self.lb.Idle, self.lb.Penalty
+    if self.op_in_progress():
+      # e.g. a completion whose release is queued behind the heap lock while
+      # its caller was already completed by the timer
+      REC.probe('load_check_skipped_operation_in_progress')
+      return
     for n in self.nodes:
       out = n.load - idle if n.load < 0 else n.load
       model = self.outstanding(n.channel)
-      if out != model:
+      if out != model and id(n) not in self.reported_nodes:
         REC.violation('C04', 'load_mismatch',
                       'member %s: balancer load %d, %d request(s) dispatched and not completed (%s)' % (
                         n.endpoint, out, model, where), {'kind': self.kind, 'sign': 'high' if out > model else 'low'})
-        n.load = (idle if n.load < 0 else 0) + model      # resync so one slip is reported once
+        self.reported_nodes.add(id(n))
     if self.kind == 'aperture':
       tot = sum(self.outstanding(n.channel) for n in self.nodes)
-      if self.lb._total != tot:
+      if self.lb._total != tot and not self.total_reported:
         REC.violation('C04', 'aperture_total_mismatch',
                       'aperture outstanding total %d, %d requests actually outstanding' % (self.lb._total, tot))
         REC.violation('C06', 'load_tracking_drift',
                       'the aperture tracks %d outstanding requests, %d are actually outstanding: its load average no longer follows the traffic' % (
                         self.lb._total, tot), {'sign': 'high' if self.lb._total > tot else 'low'})
-        self.lb._total = tot
+        self.total_reported = True
 
   # -- settle ----------------------------------------------------------------
+  def op_in_progress(self):
+    """A balancer operation is parked half-way (a channel's Close() that takes
+    a moment, called under the heap lock; others queue behind the lock)."""
+    lk = getattr(self.lb, '_heap_lock', None)
+    if getattr(lk, '_count', 0):
+      return True
+    blk = getattr(lk, '_block', None)
+    try:
+      return blk is not None and blk.linkcount() > 0      # somebody is queued behind the lock
+    except Exception:
+      return False
+
   def settle(self):
     lb = self.lb
+    if self.op_in_progress():
+      REC.probe('settle_skipped_operation_in_progress')
+      return
     self.check_loads('quiescent')
     for name, lvl, msg in REC.logs:
       if 'Decrementing load below Zero' in msg and not getattr(self, '_neg_reported', False):
